@@ -1,5 +1,110 @@
 import Rivaas.Proto
-/- Driver for C13 (stub: not built yet) -/
-def main : IO UInt32 := do
-  IO.eprintln "driver for C13 is not built yet"
-  return 2
+import Rivaas.Spec.Version
+/-
+Driver for C13. Case line:
+  <id> <nOpts> { P <pattern> | H <name> | Q <param> | A <pattern> | C <n> }*
+       <default> <nValid> <v>* <sendVersionHeader> <sendWarning299> <enforceSunset> <now>
+       <nLC> { <version> <deprecated> { 0 | 1 <secs> <httpFormat> <rfc3339> } <migrationURL> }*
+       <nRoutes> { { 0 | 1 <version> } <method> <path> }*
+       <method> <path> <rawQuery> <nLib> { N | H <v> | Q <has> <get> | A <v> | C <v> }*
+    => P | R <status> { 0 | 1 { 0 | 1 <tree> } <route> } { 0 | 1 <Version()> } <X-API-Version> <Deprecation> <Sunset> <Link> <Warning>
+  (each of the five headers as `0` or `1 <value>`)
+-/
+namespace Rivaas.DriverC13
+open Rivaas Rivaas.Proto Rivaas.Version
+
+def pOpt : P DetOpt := do
+  let k ← tok
+  if k == "P" then DetOpt.path <$> str
+  else if k == "H" then DetOpt.header <$> str
+  else if k == "Q" then DetOpt.query <$> str
+  else if k == "A" then DetOpt.accept <$> str
+  else if k == "C" then DetOpt.custom <$> nat
+  else failure
+
+def pLib : P LibVal := do
+  let k ← tok
+  if k == "N" then pure LibVal.none
+  else if k == "H" then LibVal.header <$> str
+  else if k == "Q" then (do let h ← bool; let g ← str; pure (LibVal.query h g))
+  else if k == "A" then LibVal.accept <$> str
+  else if k == "C" then LibVal.custom <$> str
+  else failure
+
+def pLC : P (Bytes × LC) := do
+  let v ← str
+  let dep ← bool
+  let sun ← opt (do let d ← nat; let h ← str; let r ← str; pure (d, h, r))
+  let mig ← str
+  pure (v, { deprecated := dep, sunset := sun, migration := mig })
+
+def pRoute : P Route := do
+  let v ← opt str
+  let m ← str
+  let p ← str
+  pure { ver := v, method := m, path := p }
+
+def pInput : P (Cfg × List Route × Req) := do
+  let opts ← list pOpt
+  let dflt ← str
+  let valid ← list str
+  let svh ← bool
+  let sw ← bool
+  let enf ← bool
+  let now ← nat
+  let lcs ← list pLC
+  let routes ← list pRoute
+  let m ← str
+  let p ← str
+  let q ← str
+  let lib ← list pLib
+  pure ({ opts := opts, dflt := dflt, valid := valid, sendVersionHeader := svh, sendWarning299 := sw,
+          enforceSunset := enf, now := now, lifecycles := lcs },
+        routes, { method := m, path := p, rawQuery := q, lib := lib })
+
+/-- `none` = the implementation panicked -/
+def pObs : P (Option Obs) := do
+  let k ← tok
+  if k == "P" then pure none
+  else if k == "R" then do
+    let st ← nat
+    let h ← opt (do let t ← opt str; let r ← str; pure (t, r))
+    let v ← opt str
+    let a ← opt str
+    let b ← opt str
+    let c ← opt str
+    let d ← opt str
+    let e ← opt str
+    pure (some { status := st, handler := h, version := v, hXAPIVersion := a, hDeprecation := b,
+                 hSunset := c, hLink := d, hWarning := e })
+  else failure
+
+def encOpt (o : Option Bytes) : String :=
+  match o with
+  | none => "0"
+  | some v => "1 " ++ encStr v
+
+def encObs (o : Obs) : String :=
+  let h := match o.handler with
+    | none => "0"
+    | some (t, r) => "1 " ++ encOpt t ++ " " ++ encStr r
+  s!"R {o.status} {h} {encOpt o.version} {encOpt o.hXAPIVersion} {encOpt o.hDeprecation} {encOpt o.hSunset} {encOpt o.hLink} {encOpt o.hWarning}"
+
+def step (line : String) : String :=
+  match splitCase line with
+  | none => "? bad-line"
+  | some (id, inp, obs) =>
+    match runP pInput inp, runP pObs obs with
+    | some (cfg, routes, req), some o =>
+      let m := serve cfg routes req
+      let agrees := Spec.libAgrees cfg req
+      let mi := (o == some m) && agrees
+      let sOK := match o with
+        | some io => Spec.specOK cfg routes req io
+        | none => false
+      verdict id mi sOK "-" (encObs m ++ (if agrees then "" else " lib-disagrees-with-standard-parser"))
+    | _, _ => s!"{id} bad-case"
+
+end Rivaas.DriverC13
+
+def main : IO UInt32 := Rivaas.Proto.driverMain Rivaas.DriverC13.step
